@@ -85,6 +85,10 @@ inductive SuiteMatch where
   | no | yes | full     -- SUITE_MATCH_FALSE / SUITE_MATCH_TRUE / SUITE_MATCH_FULL
 deriving DecidableEq, Repr
 
+def SuiteMatch.isFull : SuiteMatch → Bool
+  | .full => true
+  | _ => false
+
 /-- `PathFilter.LocationMatches` -/
 def locationMatches (glob : String → Bool) (line : Int) (loc : Loc) : Bool :=
   if !glob loc.file then false
@@ -152,7 +156,7 @@ def regSuite (fs : List Filter) (ctx : NameCtx) (anc : List Loc) (parentFull : B
     match suiteMatchesFilters fs parentFull loc anc with
     | .no => none
     | m =>
-      let full := decide (m = .full)
+      let full := m.isFull
       let ctx' := ctx.sub name
       some (.mk name full hooks (regCases fs full ctx' (loc :: anc) cases)
         (regSubs fs ctx' (loc :: anc) full subs))
@@ -214,47 +218,57 @@ structure Rep where
   events : List Ev
 deriving Repr
 
-/-- `Case.runBeforeEach`: stops at the first failing hook -/
-def runBeforeEach : List Hook → Status → List Ev → Status × List Ev × Bool
-  | [], st, evs => (st, evs, true)
-  | h :: hs, st, evs =>
-    if h.outcome = .pass then runBeforeEach hs st (evs ++ [⟨.beforeEach, h.id, h.outcome⟩])
-    else (h.outcome.status st, evs ++ [⟨.beforeEach, h.id, h.outcome⟩], false)
+/-- `Case.runBeforeEach`: stops at the first failing hook; answers the status left in the report,
+the closures called and whether all hooks passed -/
+def runBeforeEach : List Hook → Status → Status × List Ev × Bool
+  | [], st => (st, [], true)
+  | h :: hs, st =>
+    if h.outcome = .pass then
+      let (st', evs, ok) := runBeforeEach hs st
+      (st', ⟨.beforeEach, h.id, h.outcome⟩ :: evs, ok)
+    else (h.outcome.status st, [⟨.beforeEach, h.id, h.outcome⟩], false)
 
 /-- `Case.runAfterEach`: all hooks run; a failing one overwrites the status -/
-def runAfterEach : List Hook → Status → List Ev → Status × List Ev
-  | [], st, evs => (st, evs)
-  | h :: hs, st, evs => runAfterEach hs (h.outcome.status st) (evs ++ [⟨.afterEach, h.id, h.outcome⟩])
+def runAfterEach : List Hook → Status → Status × List Ev
+  | [], st => (st, [])
+  | h :: hs, st =>
+    let (st', evs) := runAfterEach hs (h.outcome.status st)
+    (st', ⟨.afterEach, h.id, h.outcome⟩ :: evs)
 
 /-- `Case.Run` (`bes`/`aes`: the hooks of all enclosing suites, innermost suite first) -/
 def runCase (bes aes : List Hook) (rc : RCase) : CaseRep × List Ev :=
-  match runBeforeEach bes .running [] with
+  match runBeforeEach bes .running with
   | (st, evs, false) =>
-    let (st', evs') := runAfterEach aes st evs
-    (⟨rc.c, rc.fullName, st'⟩, evs')
+    let (st', evs') := runAfterEach aes st
+    (⟨rc.c, rc.fullName, st'⟩, evs ++ evs')
   | (st, evs, true) =>
     let st1 := rc.c.body.status st
-    let (st2, evs2) := runAfterEach aes st1 (evs ++ [⟨.body, rc.c.id, rc.c.body⟩])
-    (⟨rc.c, rc.fullName, updateStatus st2 .success⟩, evs2)
+    let (st2, evs2) := runAfterEach aes st1
+    (⟨rc.c, rc.fullName, updateStatus st2 .success⟩, evs ++ ⟨.body, rc.c.id, rc.c.body⟩ :: evs2)
 
-/-- the loop over `s.Cases` in `Suite.Run` (`RegisterCaseReport`) -/
-def runCases (bes aes : List Hook) : List RCase → Rep → Rep
-  | [], acc => acc
-  | rc :: rest, acc =>
+/-- the loop over `s.Cases` in `Suite.Run` (`RegisterCaseReport`); `st` is the suite status so far -/
+def runCases (bes aes : List Hook) : List RCase → Status → Rep
+  | [], st => ⟨st, [], []⟩
+  | rc :: rest, st =>
     let (cr, evs) := runCase bes aes rc
-    runCases bes aes rest ⟨updateStatus acc.status cr.status, acc.cases ++ [cr], acc.events ++ evs⟩
+    let r := runCases bes aes rest (updateStatus st cr.status)
+    ⟨r.status, cr :: r.cases, evs ++ r.events⟩
 
 /-- `Suite.runBeforeAll`: `some status` when a hook failed -/
-def runBeforeAll : List Hook → List Ev → Option Status × List Ev
-  | [], evs => (none, evs)
-  | h :: hs, evs =>
-    if h.outcome = .pass then runBeforeAll hs (evs ++ [⟨.beforeAll, h.id, h.outcome⟩])
-    else (some (h.outcome.status .running), evs ++ [⟨.beforeAll, h.id, h.outcome⟩])
+def runBeforeAll : List Hook → Option Status × List Ev
+  | [] => (none, [])
+  | h :: hs =>
+    if h.outcome = .pass then
+      let (r, evs) := runBeforeAll hs
+      (r, ⟨.beforeAll, h.id, h.outcome⟩ :: evs)
+    else (some (h.outcome.status .running), [⟨.beforeAll, h.id, h.outcome⟩])
 
 /-- `Suite.runAfterAll` -/
-def runAfterAll : List Hook → Status → List Ev → Status × List Ev
-  | [], st, evs => (st, evs)
-  | h :: hs, st, evs => runAfterAll hs (h.outcome.status st) (evs ++ [⟨.afterAll, h.id, h.outcome⟩])
+def runAfterAll : List Hook → Status → Status × List Ev
+  | [], st => (st, [])
+  | h :: hs, st =>
+    let (st', evs) := runAfterAll hs (h.outcome.status st)
+    (st', ⟨.afterAll, h.id, h.outcome⟩ :: evs)
 
 mutual
 /-- `Suite.CaseCount` -/
@@ -271,21 +285,22 @@ def runSuite (bes aes : List Hook) : RSuite → Rep
   | .mk _ _ hooks cases subs =>
     if cases.length + caseCountList subs = 0 then ⟨.skipped, [], []⟩
     else
-      match runBeforeAll hooks.beforeAll [] with
+      match runBeforeAll hooks.beforeAll with
       | (some st, evs) => ⟨st, [], evs⟩
       | (none, evs) =>
         let bes' := hooks.beforeEach ++ bes
         let aes' := hooks.afterEach ++ aes
-        let r1 := runCases bes' aes' cases ⟨.running, [], evs⟩
-        let r2 := runSubs bes' aes' subs r1
-        let (st3, evs3) := runAfterAll hooks.afterAll r2.status r2.events
-        ⟨updateStatus st3 .success, r2.cases, evs3⟩
-/-- the loop over `s.SubSuites` (`RegisterSubSuiteReport`) -/
-def runSubs (bes aes : List Hook) : List RSuite → Rep → Rep
-  | [], acc => acc
-  | s :: ss, acc =>
+        let r1 := runCases bes' aes' cases .running
+        let r2 := runSubs bes' aes' subs r1.status
+        let (st3, evs3) := runAfterAll hooks.afterAll r2.status
+        ⟨updateStatus st3 .success, r1.cases ++ r2.cases, evs ++ r1.events ++ r2.events ++ evs3⟩
+/-- the loop over `s.SubSuites` (`RegisterSubSuiteReport`); `st` is the suite status so far -/
+def runSubs (bes aes : List Hook) : List RSuite → Status → Rep
+  | [], st => ⟨st, [], []⟩
+  | s :: ss, st =>
     let r := runSuite bes aes s
-    runSubs bes aes ss ⟨updateStatus acc.status r.status, acc.cases ++ r.cases, acc.events ++ r.events⟩
+    let r' := runSubs bes aes ss (updateStatus st r.status)
+    ⟨r'.status, r.cases ++ r'.cases, r.events ++ r'.events⟩
 end
 
 /-- `test.Run()` on the registered root -/
